@@ -8,20 +8,20 @@ SYM = ["auto-close bit", "source key (timer period/clock/absolute bit, signal nu
        "errno left by callbacks (int)"]
 
 
-def _route(kind, route, dup=0, oneshot=0, fire=0, loop=0):
-    name = "C20.route.%s%s.%s.o%d.f%d.l%d" % (KINDS[kind], ".dup" if dup else "", ROUTES[route], oneshot, fire, loop)
+def _route(kind, route, dup=0, oneshot=0, fire=0, loop=0, ac=0, timeout=900, symabs=0):
+    name = "C20.route.%s%s.%s.o%d.f%d.l%d.ac%d%s" % (KINDS[kind], ".dup" if dup else "", ROUTES[route], oneshot, fire, loop, ac, ".abs" if symabs else "")
     return l2_job(name, "l2/c20_routes.c",
-                  defines={"KIND": kind, "ROUTE": route, "DUP": dup, "ONESHOT": oneshot, "FIRE": fire, "LOOP": loop},
+                  defines={"KIND": kind, "ROUTE": route, "DUP": dup, "ONESHOT": oneshot, "FIRE": fire, "LOOP": loop, "AC": ac, "SYMABS": symabs}, timeout=timeout,
                   symbolic=SYM, bounds=name, unwind=13, task_fns=["my_task"],
                   kf=["C20_dup_autoclose"] if dup else [])
 
 
 def jobs(tier):
     js = []
-    js.append(_route(2, 0))
-    js.append(_route(2, 7))
-    js.append(_route(1, 0))
-    js.append(_route(1, 0, dup=1))
+    js.append(_route(2, 0, timeout=200))
+    js.append(_route(2, 0, ac=-1, timeout=200))
+    js.append(_route(2, 0, symabs=1, timeout=200))
+    js.append(_route(1, 0, ac=1, timeout=200))
     return js
 
 
